@@ -5,7 +5,7 @@ CONSTANTS
   Rmax = 2
   Msz = 0
   IdN = 3
-  MaxIn = 4
+  MaxIn = 3
   InQos = {0, 1, 2}
   InIds = {1, 2}
   Reasons = {0}
@@ -13,6 +13,8 @@ CONSTANTS
   MaxSpur = 0
   Endings = {}
   SeiSet = {"never"}
+  ReR = {2}
+  ReM = {0}
   RecordSched = FALSE
   Dev = {}
 VIEW view
